@@ -418,6 +418,12 @@ class AttributesConverter(object):
         m.ParseFromString(protobytes)
         return self.proto_to_message(m)
 
+    def protobytes_is_key_distribution_only(self, protobytes):
+        # type: (bytes) -> bool
+        m = Message()
+        m.ParseFromString(protobytes)
+        return [field.name for field, _ in m.ListFields()] == ["sender_key_distribution_message"]
+
     def message_to_protobytes(self, message):
         # type: (MessageAttributes) -> bytes
         return self.message_to_proto(message).SerializeToString()
